@@ -336,7 +336,8 @@ class TokenParser(Parser):
             # if the 2nd group (capturing comments) is not None,
             # it means we have captured a non-quoted (real) comment string.
             if comment := match.group(2):
-                return "\n" * comment.count("\n")  # so we will return empty to remove the comment
+                # A comment separates tokens just like whitespace does, keep the newlines for the line numbers
+                return " " + "\n" * comment.count("\n")
             # otherwise, we will return the 1st group
             return match.group(1)  # captured quoted-string
 
